@@ -6,7 +6,8 @@
    no-lapping precondition (writes begun < next reader index + capacity, at every slot store)
    is the ghost monitor s_lapped = false. *)
 From MV Require Import C02.Model C02.ProofsBase C02.ProofsCtl C02.ProofsFun C02.ProofsFunStep
-  C02.ProofsTop C02.ProofsEx C02.ProofsView C02.ProofsViewStep C02.ProofsVis gen.Params_C02.
+  C02.ProofsTop C02.ProofsEx C02.ProofsView C02.ProofsViewStep C02.ProofsVis C02.ProofsOnce
+  C02.ProofsThrottle gen.Params_C02.
 Local Open Scope Z_scope.
 
 (* the flag -> mode decision of muggle_ring_buffer_get_mode, as computed by the code on this run,
@@ -85,18 +86,52 @@ Theorem c02_memory_orders_sufficient : mo_sufficient code_params = true.
 Proof. vm_compute. reflexivity. Qed.
 Print Assumptions c02_memory_orders_sufficient.
 
-(* FULL STATEMENT (rb_payload_visible): for every scenario and schedule, under the no-lapping
+(* for every scenario (all writer and reader modes) and schedule, under the no-lapping
    precondition, s_uncov = 0: every plain read of a slot, of a payload and of read_cursor by a
-   reader is covered by the reader's view (what the producer stored before the write is visible
-   to every reader that receives the message).
-   PROVED PART: reader modes wait / single-wait / busy-loop (c_rm c <> ROnce), locked and single
-   writers.  NOT PROVED: read-once mode (read_cursor under read_mutex, slot and payload read in
-   muggle_ring_buffer_read_once); there the uncovered-read monitor of the model is checked on
-   every accepted trace and by model exploration when the parameter obligation breaks. *)
-Theorem rb_payload_visible_partial : forall c sched, wf_cfg c -> c_rm c <> ROnce ->
+   reader is covered by the reader's view - what the producer stored in a message before
+   writing it is visible to every reader that receives it *)
+Theorem rb_payload_visible : forall c sched, wf_cfg c ->
   let s := exec sys (step code_params) (init c) sched in
   s_lapped s = false -> s_uncov s = 0%nat.
 Proof.
-  intros c sched Hwf Hm. exact (rb_payload_visible_waitbusy code_params c sched Hwf c02_memory_orders_sufficient Hm).
+  intros c sched Hwf. exact (rb_payload_visible_all code_params c sched Hwf c02_memory_orders_sufficient).
 Qed.
-Print Assumptions rb_payload_visible_partial.
+Print Assumptions rb_payload_visible.
+
+(* read-once mode, continued: a reader's positions in the read-mutex order strictly increase
+   (over its returned results and its pending take), and every taken position n belongs to
+   reader s_who n, which has returned it as one of its results or holds it as the pending take
+   it is about to return - no position is lost, none is given to two readers *)
+Theorem rb_once_positions : forall c sched, wf_cfg c -> c_rm c = ROnce ->
+  let s := exec sys (step code_params) (init c) sched in
+  s_lapped s = false ->
+  (forall t k1 k2, 0 <= k1 < k2 -> k2 < ocount (s_thr s t) ->
+     t_gotn (s_thr s t) k1 < t_gotn (s_thr s t) k2) /\
+  (forall n, 0 <= n < s_nt s ->
+     let x := s_thr s (s_who s n) in
+     exists k, t_gotn x k = n /\
+       ((0 <= k < t_cnt x /\ t_got x k = s_once s n) \/
+        (k = t_cnt x /\ pending (t_pc x) = true /\ t_ret x = s_once s n))).
+Proof. exact (rb_once_positions_all code_params). Qed.
+Print Assumptions rb_once_positions.
+
+(* the harness throttle (model of c02_driver.c can_begin: a writer takes ticket k only when
+   k + 1 < min over the readers of the next index + capacity; read-once: delivered + capacity)
+   implies the documented precondition: the monitor never fires, for every schedule *)
+Theorem rb_throttle_no_lap : forall c sched, wf_cfg c -> c_thr c = true ->
+  s_lapped (exec sys (step code_params) (init c) sched) = false.
+Proof. intros c sched Hwf Ht. exact (rb_throttle_no_lap_all code_params c Hwf Ht sched). Qed.
+Print Assumptions rb_throttle_no_lap.
+
+(* hence, for throttled scenarios, unconditionally *)
+Theorem rb_throttled_read_and_visibility : forall c sched t k, wf_cfg c -> c_thr c = true ->
+  let s := exec sys (step code_params) (init c) sched in
+  s_uncov s = 0%nat /\
+  (c_rm c <> ROnce -> 0 <= k < t_cnt (s_thr s t) ->
+   t_got (s_thr s t) k = s_wr s (c_pre c + k) /\ c_pre c + k < s_nw s).
+Proof.
+  intros c sched t k Hwf Ht s. pose proof (rb_throttle_no_lap c sched Hwf Ht) as Hl. fold s in Hl. split.
+  - exact (rb_payload_visible c sched Hwf Hl).
+  - intros Hm Hk. exact (rb_read_returns_ith c sched t k Hwf Hm Hl Hk).
+Qed.
+Print Assumptions rb_throttled_read_and_visibility.
